@@ -46,13 +46,13 @@ Proof. exact keep_rel_clamp. Qed.
 Print Assumptions C09_relative_rule.
 
 (* two_site_svd (canonicalisation, MPS.truncate): strictly less than the threshold is cut, at least two kept *)
-Theorem C09_two_site_svd_weight : forall s thr, (0 < thr)%Q -> (tail_weight QN s (keep_tss QN s thr None) < thr)%Q.
+Theorem C09_two_site_svd_weight : forall s thr minb, (0 < thr)%Q -> (tail_weight QN s (keep_tss QN s thr minb None) < thr)%Q.
 Proof. exact tss_weight. Qed.
 Print Assumptions C09_two_site_svd_weight.
-Theorem C09_two_site_svd_min_two : forall (N : Num) s thr, (2 <= length s)%nat -> (2 <= keep_tss N s thr None)%nat.
-Proof. exact keep_tss_min_two. Qed.
-Print Assumptions C09_two_site_svd_min_two.
-Theorem C09_two_site_svd_le_rank : forall (N : Num) s thr mb, (2 <= length s)%nat -> (keep_tss N s thr mb <= length s)%nat.
+Theorem C09_two_site_svd_min : forall (N : Num) s thr minb, (Nat.min (length s) minb <= keep_tss N s thr minb None)%nat.
+Proof. exact keep_tss_min. Qed.
+Print Assumptions C09_two_site_svd_min.
+Theorem C09_two_site_svd_le_rank : forall (N : Num) s thr minb mb, (keep_tss N s thr minb mb <= length s)%nat.
 Proof. exact keep_tss_le_len. Qed.
 Print Assumptions C09_two_site_svd_le_rank.
 
